@@ -73,7 +73,7 @@ CLAIMED.update({
    note=TB + "partial: 'only after' is proved, 'promptly' is not decidable by contracts; release protocol as for C01.",
    technique=GH2),
  "C14": dict(category="proof",
-   text="Fair/FairDivider: for every distinct list, dividend and pre-filled map (sum + dividend < 2^64): msum' == msum + dividend; entry j gets exactly dividend div n + [j < dividend mod n]; every key outside the list unchanged. Rate/RateDivider: conservation and frame on all three exits, and - with float64 operations uninterpreted but monotone (assumed axioms) - increments non-increasing along a strictly descending list; and a functional post-condition over the spec term part(j) = uint(round(dividend/sum * P[j])): every priority after the first gets exactly part(j), or less than part(j) with nothing for the priorities after it (truncation); the first gets at least part(0) unless everything after it gets nothing; the first gets more than part(0) (the leftover) only if nobody was truncated. With conservation these clauses determine the result map, and v1 RateDivider and v2 Rate are proved against the same clauses over the same uninterpreted float term, so equal inputs give equal maps (same for Fair/FairDivider, whose post-condition is an explicit integer formula). NOT decided: 'each Rate increment within n/2 of the exact proportional share' is a floating-point rounding bound (no solver here decides it, see DESIGN.md).",
+   text="Fair/FairDivider: for every distinct list, dividend and pre-filled map (sum + dividend < 2^64): msum' == msum + dividend; entry j gets exactly dividend div n + [j < dividend mod n]; every key outside the list unchanged. Rate/RateDivider: conservation and frame on all three exits, and - with float64 operations uninterpreted but monotone (assumed axioms) - increments non-increasing along a strictly descending list; and a functional post-condition over the spec term part(j) = uint(round(dividend/sum * P[j])): every priority after the first gets exactly part(j), or less than part(j) with nothing for the priorities after it (truncation); the first gets at least part(0) unless everything after it gets nothing; the first gets more than part(0) (the leftover) only if nobody was truncated. With conservation these clauses determine the result map, and v1 RateDivider and v2 Rate are proved against the same clauses over the same uninterpreted float term, so equal inputs give equal maps (same for Fair/FairDivider, whose post-condition is an explicit integer formula). Bounded stand-in (labelled bounded, not proved): 'each Rate increment within n/2 of the exact proportional share' is a floating-point rounding bound no solver here decides; it is checked on the real code with an exact rational oracle for lists of 1..5 (and one of 8) descending values and dividends 0..200 plus a few up to 2^32 (DESIGN.md 12.8).",
    design_ref="DESIGN.md §7 C14",
    note=TB + "float64 uninterpreted with monotonicity axioms for u2f/fmul/fround/f2u (specs/externals.spec); SumPriorities' accumulation assumed not to wrap.",
    technique="contract-based deductive verification: loop invariants over map sums and quantified per-entry facts; nonlinear integer arithmetic; z3/cvc5"),
@@ -125,7 +125,7 @@ CLAIMED.update({
 
 CLAIMED.update({
  "C18": dict(category="proof",
-   text="Handler-quantity helpers of v2/priority/utils and v1 priority, relative to what the (arbitrary, possibly impure) divider answered during the call. (1) Subset enumeration: genCombinations / genPriorityCombinations are proved (nested loop invariants, pow2m1(n)=2^n-1) to return pow2m1(n) slices where, for every t<n, positions pow2m1(t)..2*pow2m1(t)-1 are copies of positions 0..pow2m1(t)-1 each extended by priorities[t] and position 2*pow2m1(t) is the singleton [priorities[t]] - by induction on t exactly every non-empty subset once, each in the order of the priorities slice; createSortedCopy is proved to return a fresh high-to-low sorted permutation (SortPriorities trusted). (2) Predicates: a call hook on every call through a Divider value records the priorities slice, the dividend and whether every listed priority got >= 1 unit; isNonFatalConfig returns true exactly when it divided `quantity` among every combination, in order, and each division was filled (false: the last division made was of `quantity` among the next combination and was not filled); isSuitableConfig true implies the same filledness facts (suitable => non-fatal); IsNonFatalConfig / IsSuitableConfig return exactly that predicate evaluated on the subset structure of the sorted copy of their argument. (3) Pick-up: each PickUpMin/Max function evaluates the predicate - always on that same subset structure - on 1,2,... (resp. max,max-1,...) and returns the first quantity for which it held, hence the smallest/largest in [1,max], or 0 after all max evaluations were false. NOT decided: monotonicity in the percentage limit (floating point), and 'non-fatal => accepted by New' across the two packages (it needs a deterministic divider; the shared filledness test IsDistributionFilledFor is the same function in both, and its defect was found and repaired through C15).",
+   text="Handler-quantity helpers of v2/priority/utils and v1 priority, relative to what the (arbitrary, possibly impure) divider answered during the call. (1) Subset enumeration: genCombinations / genPriorityCombinations are proved (nested loop invariants, pow2m1(n)=2^n-1) to return pow2m1(n) slices where, for every t<n, positions pow2m1(t)..2*pow2m1(t)-1 are copies of positions 0..pow2m1(t)-1 each extended by priorities[t] and position 2*pow2m1(t) is the singleton [priorities[t]] - by induction on t exactly every non-empty subset once, each in the order of the priorities slice; createSortedCopy is proved to return a fresh high-to-low sorted permutation (SortPriorities trusted). (2) Predicates: a call hook on every call through a Divider value records the priorities slice, the dividend and whether every listed priority got >= 1 unit; isNonFatalConfig returns true exactly when it divided `quantity` among every combination, in order, and each division was filled (false: the last division made was of `quantity` among the next combination and was not filled); isSuitableConfig true implies the same filledness facts (suitable => non-fatal); IsNonFatalConfig / IsSuitableConfig return exactly that predicate evaluated on the subset structure of the sorted copy of their argument. (3) Pick-up: each PickUpMin/Max function evaluates the predicate - always on that same subset structure - on 1,2,... (resp. max,max-1,...) and returns the first quantity for which it held, hence the smallest/largest in [1,max], or 0 after all max evaluations were false. Bounded stand-ins (labelled bounded, not proved; they relate two calls of an arbitrary divider, which no per-call contract expresses): monotonicity in the percentage limit and 'non-fatal => accepted by priority.New' are checked on the real code for 12 priority sets of 1..6 values, Fair/Rate, q and max 0..40 and ten limits (DESIGN.md 12.8).",
    design_ref="DESIGN.md §7 C18, §12.6",
    note=TB + "assumed: SortPriorities (sort.SliceStable) contract, sign of the float capacity hint calcCombinationsQuantity, isDistributionSuitable (no contract), dividers do not write their priorities argument, two induction facts about pow2m1 (monotone, non-negative) stated as axioms; the step from the positional structure to 'every non-empty subset' is an induction argued in DESIGN.md, not machine checked; results are relative to the divider's answers during the call (no determinism assumption).",
    technique=GH2),
